@@ -45,7 +45,7 @@ pub struct ConcCase {
 pub struct C08Conc;
 
 fn rid(cell: usize) -> ResourceId {
-    let (t, d) = (cell / ND, (cell % ND) as u64);
+    let (t, d) = (cell / ND, crate::res::dyn_id((cell % ND) as u8));
     match t {
         0 => ResourceId::new_with_dynamic_id::<Pair<0>>(d),
         1 => ResourceId::new_with_dynamic_id::<Pair<1>>(d),
